@@ -246,20 +246,29 @@ def run(ctx, build):
                 return
             # 3. invalid names: ValueError, nothing written
             for name in INVALID:
+              for how in ('write_bytes', 'mkdir', 'touch', 'open-x'):
                 pre = bytes(buf)
                 try:
-                    (base / name).write_bytes(b'x') if name else (fs.root / 'work dir' / name if in_subdir else fs.root / name).write_bytes(b'x')
+                    p = (base / name) if name else (fs.root / 'work dir' / name if in_subdir else fs.root / name)
+                    if how == 'write_bytes':
+                        p.write_bytes(b'x')
+                    elif how == 'mkdir':
+                        p.mkdir()
+                    elif how == 'touch':
+                        p.touch()
+                    else:
+                        p.open('xb').close()
                     outcome = 'created'
                 except ValueError:
                     outcome = 'ValueError'
                 except Exception as e:
                     outcome = type(e).__name__
-                ctx.case((ft, 'invalid', name), True, 'invalid-name')
+                ctx.case((ft, 'invalid', name, how), True, 'invalid-name-' + how)
                 if name == '':
                     continue       # the empty name denotes the directory itself
                 if outcome != 'ValueError' or bytes(buf) != pre:
-                    ctx.violation('fs.names/invalid-accepted', f'invalid name {name!r}: outcome {outcome}, image changed: {bytes(buf) != pre}',
-                                  dict(fat_type=ft, name=name))
+                    ctx.violation('fs.names/invalid-accepted', f'invalid name {name!r} through {how}: outcome {outcome}, image changed: {bytes(buf) != pre}',
+                                  dict(fat_type=ft, name=name, how=how))
                     return
         finally:
             try:
